@@ -6,6 +6,8 @@ mod gen;
 mod rt_ev;
 mod api_ev;
 mod span_ev;
+mod entry_ev;
+mod depth_ev;
 
 use std::collections::HashMap;
 
@@ -61,6 +63,8 @@ fn real_main() {
         "serdeint-events" => api_ev::serdeint_events(&args),
         "span-events" => span_ev::span_events(&args),
         "err-events" => span_ev::err_events(&args),
+        "entry-events" => entry_ev::entry_events(&args),
+        "depth-events" => depth_ev::depth_events(&args),
         _ => {
             eprintln!("unknown command {cmd:?}");
             std::process::exit(2);
